@@ -20,12 +20,15 @@ from .oblig import env_from_model, prove_equal, prove_valid, reach
 PID = "C06"
 
 
-def spec_decision(k, zs, Sinv, m):
-    """z^T S_inv z > k*c_m + m with c_m the exact rational of the double sqrt(2m) (the one double in the claim)."""
+def spec_decision(k, zs, Sinv, m, const_k=None):
+    """z^T S_inv z > k*c_m + m with c_m the exact rational of the double sqrt(2m) (the one double in the claim).
+    For a compile-time constant k (generated C++) the threshold is the double the code folds: fl(fl(k*c_m)+m)."""
     nis = z3.RealVal(0)
     for i in range(m):
         for j in range(m):
             nis = nis + zs[i] * Sinv[i][j] * zs[j]
+    if const_k is not None:
+        return nis > qval(float(const_k) * math.sqrt(2 * m) + m), nis
     return nis > k * qval(math.sqrt(2 * m)) + m, nis
 
 
